@@ -553,10 +553,10 @@ func (g *Gen) indexAssignStmt() Stmt {
 			}
 			if g.chance(1, 3) && isPlainIdent(key) {
 				g.feat("attr-assign")
-				return &Assign{Target: &Attr{X: &Ident{Name: v.name}, Name: key}, Op: op, X: g.expr(tInt, 2)}
+				return &Assign{Target: &Attr{X: &Ident{Name: v.name}, Name: key}, Op: op, X: g.assignValue(op)}
 			}
 			g.feat("map-index-assign")
-			return &Assign{Target: &Index{X: &Ident{Name: v.name}, I: &StrLit{V: key}}, Op: op, X: g.expr(tInt, 2)}
+			return &Assign{Target: &Index{X: &Ident{Name: v.name}, I: &StrLit{V: key}}, Op: op, X: g.assignValue(op)}
 		}
 	}
 	v := g.pickVar(tListInt)
@@ -569,7 +569,27 @@ func (g *Gen) indexAssignStmt() Stmt {
 		op = []string{"+=", "-=", "*="}[g.pick(3)]
 	}
 	g.feat("list-index-assign:" + op)
-	return &Assign{Target: &Index{X: &Ident{Name: v.name}, I: idx}, Op: op, X: g.expr(tInt, 2)}
+	return &Assign{Target: &Index{X: &Ident{Name: v.name}, I: idx}, Op: op, X: g.assignValue(op)}
+}
+
+// assignValue: the value of an index/attribute assignment. For compound operators the target is
+// evaluated twice by the implementation (recorded finding), so the value must not be able to rebind or
+// mutate the target: no calls, only literals, identifiers and arithmetic.
+func (g *Gen) assignValue(op string) Expr {
+	if op == "=" {
+		return g.expr(tInt, 2)
+	}
+	return g.pureInt(2)
+}
+
+func (g *Gen) pureInt(d int) Expr {
+	if d > 0 && g.chance(1, 2) {
+		return &Binary{Op: []string{"+", "-", "*"}[g.pick(3)], L: g.pureInt(d - 1), R: g.pureInt(d - 1)}
+	}
+	if v := g.pickVar(tInt); v != nil && g.chance(1, 2) {
+		return &Ident{Name: v.name}
+	}
+	return &IntLit{V: int64(g.pick(9))}
 }
 
 // smallIndex is a literal index that is usually in range for the short lists the generator builds.
